@@ -37,6 +37,7 @@ type Env struct {
 	OnStart    func(n *harness.Node)
 	memberVals map[int]string
 	OnTSO      func(node, inv, ret int)
+	OnTSOResp  func(node, inv, ret int, alloc string, phys, logical int64, bits uint32)
 }
 
 // Opts configures Setup.
@@ -218,6 +219,11 @@ func (e *Env) inject(kind string) {
 		s.Count("fault.clock-jump")
 		s.SetWallOffset(nd.ID, s.WallOffset(nd.ID)+off)
 		e.RC.Note("clock-jump %s %+v @%v", nd.Name, off, s.Elapsed().Round(time.Millisecond))
+	case "node-freeze":
+		// the whole process pauses, possibly for longer than its leader lease
+		d := time.Duration(200+s.Choose(7000, "nem.freeze")) * time.Millisecond
+		s.FreezeNode(nd.ID, d)
+		e.RC.Note("node-freeze %s %v @%v", nd.Name, d, s.Elapsed().Round(time.Millisecond))
 	case "watch-cancel":
 		if n := w.Etcd.CancelWatches(nd.ID); n > 0 {
 			s.Count("fault.watch-cancel")
